@@ -351,8 +351,22 @@ _public_ int m_map_put(m_map_t *m, const char *key, void *value) {
     M_PARAM_ASSERT(key);
     M_PARAM_ASSERT(value);
     
-    /* Find a place to put our value */
-    return hashmap_put(m, m->flags & M_MAP_KEY_DUP ? mem_strdup(key) : key, value);
+    if (!(m->flags & M_MAP_KEY_DUP)) {
+        /* Find a place to put our value */
+        return hashmap_put(m, key, value);
+    }
+    
+    char *dup_key = mem_strdup(key);
+    const size_t num_entries = m->length;
+    int ret = hashmap_put(m, dup_key, value);
+    if (ret != 0 || m->length == num_entries) {
+        /*
+         * Our copy of the key was not stored: either the put failed,
+         * or an existing entry (that keeps its own key) was updated.
+         */
+        memhook._free(dup_key);
+    }
+    return ret;
 }
 
 /*
